@@ -199,15 +199,26 @@ func (p *Plugin) vetoText(ev int, req string) string {
 	return fmt.Sprintf("veto:%s:%s:%d", p.Name, req, ev)
 }
 
+// reqAnnotation carries the full request id when it differs from the pod/container id
+// (request ids of the form "cid#tag": several requests about the SAME pod/container, which
+// the plugins must still be able to tell apart).
+const reqAnnotation = "verif/req"
+
 func podID(pod *api.PodSandbox) string {
 	if pod == nil {
 		return ""
+	}
+	if v, ok := pod.GetAnnotations()[reqAnnotation]; ok {
+		return v
 	}
 	return pod.Id
 }
 func ctrID(c *api.Container) string {
 	if c == nil {
 		return ""
+	}
+	if v, ok := c.GetAnnotations()[reqAnnotation]; ok {
+		return v
 	}
 	return c.Id
 }
@@ -680,10 +691,26 @@ func updItems(us []*api.ContainerUpdate) []string {
 }
 
 func pod(id string) *api.PodSandbox {
-	return &api.PodSandbox{Id: id, Name: id, Uid: id, Namespace: "ns"}
+	cid := id
+	if i := strings.IndexByte(id, '#'); i >= 0 {
+		cid = id[:i]
+	}
+	p := &api.PodSandbox{Id: cid, Name: cid, Uid: cid, Namespace: "ns"}
+	if cid != id {
+		p.Annotations = map[string]string{reqAnnotation: id}
+	}
+	return p
 }
 func ctr(id string) *api.Container {
-	return &api.Container{Id: id, PodSandboxId: id, Name: id, State: api.ContainerState_CONTAINER_CREATED}
+	cid := id
+	if i := strings.IndexByte(id, '#'); i >= 0 {
+		cid = id[:i]
+	}
+	c := &api.Container{Id: cid, PodSandboxId: cid, Name: cid, State: api.ContainerState_CONTAINER_CREATED}
+	if cid != id {
+		c.Annotations = map[string]string{reqAnnotation: id}
+	}
+	return c
 }
 
 // Do issues one request of kind ev (1..13) whose pod/container id is `id` through the
